@@ -1,7 +1,7 @@
 (* Executable model of the periodic top tree
    TbfAlgorithmPeriodicTopTree (src/algorithms/periodic/tbfalgorithmperiodictoptree.hpp:40-262, 279-292, 410-443)
    and of the documented four-step periodic sequence. *)
-From Tbfmm Require Import Base.Prelude Base.Search Index.MortonDefs Tree.GroupDefs Index.ListsDefs Tree.BuildDefs Exec.ExecDefs.
+From Tbfmm Require Import Base.Prelude Base.Search Index.MortonDefs Tree.GroupDefs Index.ListsDefs Tree.BuildDefs Exec.ExecDefs Exec.ExecTsmDefs.
 Local Open Scope Z_scope.
 
 (* calls on the virtual cells above the root; [lvl] is the level argument handed to the kernel *)
@@ -48,6 +48,20 @@ Definition periodic_run (k : Z) (stop : Z) (t : tree) : list pcall :=
   ++ map Top (top_execute k 63 t)
   ++ map Real (execute d true stop (F_M2L + F_P2P) t)
   ++ map Real (execute d true stop (F_L2L + F_L2P) t).
+
+(* target/source variant (TbfAlgorithmPeriodicTopTreeTsm): the upward part reads the SOURCE tree's level-1 cells, the final
+   downward call writes the TARGET tree's level-1 cells *)
+Definition top_execute_tsm (k : Z) (flags : Z) (src tgt : tree) : list tcall :=
+  if (k <? 0) || (height src =? 0) then [] else
+  (if has flags F_M2M then top_M2M k src else [])
+  ++ (if has flags F_M2L then top_M2L k else [])
+  ++ (if has flags F_L2L then top_L2L k tgt else []).
+
+Definition periodic_run_tsm (k : Z) (stop : Z) (src tgt : tree) : list pcall :=
+  map Real (execute_tsm d true stop (F_P2M + F_M2M) src tgt)
+  ++ map Top (top_execute_tsm k 63 src tgt)
+  ++ map Real (execute_tsm d true stop (F_M2L + F_P2P) src tgt)
+  ++ map Real (execute_tsm d true stop (F_L2L + F_L2P) src tgt).
 
 (* GetNbRepetitionsPerDim / getRepetitionsIntervals *)
 Definition nb_repetitions (k : Z) : Z := if k =? -1 then 3 else if k =? 0 then 7 else 6 * Z.shiftl 1 k.
